@@ -1,6 +1,6 @@
 CONSTANTS
   DevPartial = TRUE
-  DevOrder = TRUE
+  DevOrder = FALSE
   DevMulti = TRUE
   DevCompute = TRUE
   DevEmptySeries = TRUE
